@@ -27,8 +27,10 @@ import (
 	pxds "istio.io/istio/pilot/pkg/xds"
 	v3 "istio.io/istio/pilot/pkg/xds/v3"
 	"istio.io/istio/pilot/pkg/util/protoconv"
+	"istio.io/istio/pkg/config/schema/kind"
 	"istio.io/istio/pkg/util/sets"
 	"istio.io/istio/pkg/workloadapi"
+	"istio.io/istio/pkg/workloadapi/security"
 	"verif/harness/vlib"
 )
 
@@ -48,6 +50,7 @@ var types = []xtype{
 	{v3.AddressType, "ADDR"},
 	{v3.WorkloadType, "WORKLOAD"},
 	{v3.NameTableType, "(OTHER 1%N)"},
+	{v3.WorkloadAuthorizationType, "(OTHER 4%N)"},
 }
 
 const (
@@ -60,6 +63,7 @@ const (
 	tADDR
 	tWORKLOAD
 	tNDS
+	tAUTHZ
 )
 
 func typeIndex(url string) int {
@@ -76,7 +80,16 @@ func isZtunnelType(t int) bool { return t == tADDR || t == tWORKLOAD }
 // names: id 0 is "*"
 var nameStr = []string{"*", "a", "b", "c", "d", "e", "f"}
 
+// the wire name of name id n for type t: workload Authorization resources are named <namespace>/<name>
+func nameFor(t, n int) string {
+	if t == tAUTHZ && n != 0 {
+		return "ns/" + nameStr[n]
+	}
+	return nameStr[n]
+}
+
 func nameID(s string) int {
+	s = strings.TrimPrefix(s, "ns/")
 	for i, n := range nameStr {
 		if n == s {
 			return i
@@ -208,6 +221,19 @@ func (g *fakeDeltaGen) GenerateDeltas(_ *model.Proxy, _ *model.PushRequest, w *m
 type fakeIndex struct {
 	model.NoopAmbientIndexes
 	addrs []resv
+	pols  []resv
+}
+
+// Policies: what the real WorkloadRBACGenerator reads (requested empty = all)
+func (f fakeIndex) Policies(requested sets.Set[model.ConfigKey]) []model.WorkloadAuthorization {
+	var out []model.WorkloadAuthorization
+	for _, p := range f.pols {
+		if len(requested) > 0 && !requested.Contains(model.ConfigKey{Kind: kind.AuthorizationPolicy, Name: nameStr[p.Name], Namespace: "ns"}) {
+			continue
+		}
+		out = append(out, model.WorkloadAuthorization{Authorization: &security.Authorization{Name: nameStr[p.Name], Namespace: "ns"}})
+	}
+	return out
 }
 
 func (f fakeIndex) AddressInformation(addresses sets.String) ([]model.AddressInfo, sets.String) {
@@ -277,15 +303,16 @@ func newEnv(kind int, world worldT, delta bool) *env {
 	}
 	gens := map[string]model.XdsResourceGenerator{}
 	for i, t := range types {
-		if !isZtunnelType(i) {
+		if !isZtunnelType(i) && i != tAUTHZ {
 			gens[t.URL] = g
 		}
 	}
-	menv := &model.Environment{AmbientIndexes: fakeIndex{addrs: world[tADDR]}}
+	menv := &model.Environment{AmbientIndexes: fakeIndex{addrs: world[tADDR], pols: world[tAUTHZ]}}
 	e.s = pxds.VerifC05BareServer(menv, gens)
 	wg := &pxds.WorkloadGenerator{Server: e.s}
 	gens[v3.AddressType] = wg
 	gens[v3.WorkloadType] = wg
+	gens[v3.WorkloadAuthorizationType] = &pxds.WorkloadRBACGenerator{Server: e.s}
 	pc := model.NewPushContext()
 	pc.PushVersion = "pv1/"
 	e.proxy = &model.Proxy{
@@ -350,10 +377,10 @@ type Resp struct {
 	Nonce   int    `json:"nonce"`
 }
 
-func strs(ids []int) []string {
+func strs(t int, ids []int) []string {
 	out := make([]string, len(ids))
 	for i, n := range ids {
-		out[i] = nameStr[n]
+		out[i] = nameFor(t, n)
 	}
 	return out
 }
@@ -382,13 +409,13 @@ func (e *env) process(r Req) ([]Resp, error) {
 	var out []Resp
 	if r.Delta {
 		req := &discovery.DeltaDiscoveryRequest{
-			TypeUrl: types[r.T].URL, ResourceNamesSubscribe: strs(r.Names), ResourceNamesUnsubscribe: strs(r.Unsub),
+			TypeUrl: types[r.T].URL, ResourceNamesSubscribe: strs(r.T, r.Names), ResourceNamesUnsubscribe: strs(r.T, r.Unsub),
 			ResponseNonce: e.nn.str(r.Nonce), ErrorDetail: errDetail,
 		}
 		if len(r.Init) > 0 {
 			req.InitialResourceVersions = map[string]string{}
 			for _, iv := range r.Init {
-				req.InitialResourceVersions[nameStr[iv.Name]] = verStr(iv.Ver)
+				req.InitialResourceVersions[nameFor(r.T, iv.Name)] = verStr(iv.Ver)
 			}
 		}
 		before := len(e.ds.sent)
@@ -400,6 +427,10 @@ func (e *env) process(r Req) ([]Resp, error) {
 			for _, rr := range d.Resources {
 				if isZtunnelType(o.T) {
 					o.Res = append(o.Res, resv{nameID(rr.Name), verID(rr.Version)})
+					continue
+				}
+				if o.T == tAUTHZ {
+					o.Res = append(o.Res, resv{nameID(rr.Name), 0})
 					continue
 				}
 				s := &wrapperspb.StringValue{}
@@ -426,7 +457,7 @@ func (e *env) process(r Req) ([]Resp, error) {
 		return out, nil
 	}
 	req := &discovery.DiscoveryRequest{
-		TypeUrl: types[r.T].URL, ResourceNames: strs(r.Names), ResponseNonce: e.nn.str(r.Nonce), ErrorDetail: errDetail,
+		TypeUrl: types[r.T].URL, ResourceNames: strs(r.T, r.Names), ResponseNonce: e.nn.str(r.Nonce), ErrorDetail: errDetail,
 	}
 	before := len(e.ss.sent)
 	if err := pxds.VerifC05ProcessRequest(e.s, e.con, req); err != nil {
